@@ -30,6 +30,13 @@ def port_struct(case):
             return True
     return False
 
+SIGNAL_ONLY = {
+    "files": {"gate.comp": "declare component gate: x -> y\nsequence x = \"8N\"\nsequence y = \"8N\"\nstrand In = x : 8\nstrand Out = y x* : 16\nstructure IN = In : 8.\nstructure G = Out : 16.\n",
+              "inner.sys": "declare system inner: a -> c\nimport gate\ncomponent g1 = gate: a -> m\ncomponent g2 = gate: m -> c\n",
+              "top.sys": "declare system top: p -> r\nimport inner\nimport gate\ncomponent s1 = inner: p -> q\ncomponent g3 = gate: q -> r\n"},
+    "includes": [], "base": "top", "args": []}
+SIGNAL_ONLY_FIXED = "signal p = ACGTSNGT\n"     # the only entry: a signal of the top system that is bound to nothing but a signal of a sub-system
+
 def ladder_program(k):
     """k strands, each sharing a domain with the next (a staple / tile-chain topology): s_i = d_i d_{i+1}*"""
     body = [["seq", "d%d" % i, [["nuc", [[4, "N"]]]], None] for i in range(k + 1)]
@@ -51,6 +58,8 @@ def run(tier, seed, build):
             if ladder:      # once per run: a large component whose strands form a long chain through shared domains
                 prog = ladder_program(400 if tier == "quick" else 1500)
                 target = {"files": {"prog.comp": pepper.comp_text(random.Random(ti), prog)}, "includes": [], "base": "prog", "args": [], "_prog": prog}
+            elif ti == 2:   # once per run: a nested system whose fixed file holds nothing but a signal routed through a sub-system
+                target = dict(SIGNAL_ONLY, files=dict(SIGNAL_ONLY["files"]))
             elif rng.random() < 0.5:
                 prog = pepper.sat_component(rng, name="prog", allow_zero=rng.random() < 0.4)
                 if rng.random() < 0.6:
@@ -72,6 +81,8 @@ def run(tier, seed, build):
             try:
                 if "_prog" in target:
                     den = pepper.den_src(target["_prog"], "", 0); den["equals"] = []
+                elif "_gen" not in target:
+                    den = None
                 else:
                     den, _ = pepper.expected_system_den(target["_gen"], target["_top"], target["args"], 0)
             except (ValueError, KeyError, ZeroDivisionError, TypeError):
@@ -80,6 +91,8 @@ def run(tier, seed, build):
             if den is not None and rng.random() < 0.5 and not ladder and not forced_now:      # (the ladder must compile: no fixed file, whose entries may be wrong on purpose)
                 ents = [e for e in c12.gen_fixed(rng, den) if "_Anon" not in e[1]]
                 open(os.path.join(root, "fix.fixed"), "w").write(c12.fixed_text(rng, ents)); fixed = "fix.fixed"; dist["with_fixed"] += 1
+            if ti == 2:
+                open(os.path.join(root, "fix.fixed"), "w").write(SIGNAL_ONLY_FIXED); fixed = "fix.fixed"; dist["with_fixed"] += 1
             if "[dummy]" in "".join(target["files"].values()): dist["with_dummy_strand"] += 1
             nearlier = rng.choice([0, 1, 3, 5])
             dist["earlier_compiles"][str(nearlier)] = dist["earlier_compiles"].get(str(nearlier), 0) + 1
